@@ -367,7 +367,11 @@ fn parse_rules(schema: &str) -> Vec<RuleLine> {
             let start = end.saturating_sub(cur.chars().count());
             let before: String = cs[..start].iter().collect::<String>().trim_end().to_string();
             let after: String = cs[end.min(cs.len())..].iter().collect::<String>().trim_start().to_string();
+            // `&x` / `&(x)` (choice from a group) and `~x` resolve the name without consuming data
+            let stripped = before.trim_end_matches(|ch: char| ch == '(' || ch.is_whitespace());
             let op_before = before.ends_with('~')
+              || stripped.ends_with('&')
+              || stripped.ends_with('~')
               || before.ends_with("..")
               || {
                 // a control operator name right before: ".size", ".join", ...
